@@ -226,7 +226,7 @@ int main(void)
 	ASSUME((IN.flags & ~(RESIZE_PERCENT_COMPLETE | RESIZE_VERBOSE | RESIZE_ENABLE_64BIT | RESIZE_DISABLE_64BIT)) == 0);
 	ASSUME(IN.itab_flush_old <= 1 && IN.itab_flush_new <= 1 && IN.close_wrote <= 1 && IN.jnl_dirty <= 1 && IN.csum_dirty <= 1);
 	/* ASSUME: the first ext2fs_flush() (the one that makes the flag durable) succeeds.  Query FLUSH_FAULT drops this
-	 * assumption: resize_fs() ignores that call's return value, so the query FAILS on the unchanged tree (reported finding) */
+	 * assumption: then resize_fs() must stop before any stage (it used to ignore that result; repaired by 58c4b827) */
 	/* BOUND: geometry is irrelevant to the protocol: 2 groups, 1 KiB blocks, one descriptor block, no bitmaps loaded */
 	vf_sb.s_magic = EXT2_SUPER_MAGIC;
 	vf_sb.s_state = IN.s_state;
